@@ -20,6 +20,9 @@ pub open spec fn kraft_ok(l: Seq<u8>) -> bool {
     &&& forall|d: int| 1 <= d <= 15 ==> cnt_all(l, d) <= #[trigger] slots(l, d)
     &&& slots(l, 16) == 0
 }
+/// opaque name for kraft_ok, for contracts that only pass the fact along (keeps its quantifiers out of their context)
+#[verifier::opaque]
+pub open spec fn kraft(l: Seq<u8>) -> bool { kraft_ok(l) }
 /// first code of length d (RFC: next_code): nc(1) = 0, nc(d+1) = 2 (nc(d) + leaves at depth d)
 pub open spec fn nc(l: Seq<u8>, d: int) -> int
     decreases d
@@ -162,16 +165,23 @@ pub proof fn lemma_leaf_symbol(l: Seq<u8>, d: int, p: int, n: int) -> (s: int)
 }
 
 /// the value the writer stores for symbol n as a u16 sequence (what calc_huffman_codes returns)
+#[verifier::opaque]
 pub open spec fn canon(l: Seq<u8>) -> Seq<u16> { Seq::new(l.len(), |n: int| canon_at(l, n) as u16) }
 /// `tree` is what calculate_huffman_code_tree returns for the code lengths l (of an alphabet that fits u16 symbols)
+#[verifier::opaque]
 pub open spec fn tree_for(tree: Seq<i32>, l: Seq<u8>) -> bool { tree_ok(tree, l) && l.len() <= 65535 }
+pub proof fn lemma_tree_for_intro(tree: Seq<i32>, l: Seq<u8>)
+    requires tree_ok(tree, l), l.len() <= 65535,
+    ensures tree_for(tree, l),
+{ reveal(tree_for); }
 /// the bits of symbol s as they appear in the stream (the canonical code, most significant bit first)
 pub open spec fn sym_bits(l: Seq<u8>, s: int) -> Seq<bool> { lsb_bits(canon(l)[s] as nat, l[s] as nat) }
 
 pub proof fn lemma_canon_at_bound(l: Seq<u8>, n: int)
     requires 0 <= n < l.len(), l[n] < 16,
-    ensures canon_at(l, n) < 65536, canon(l)[n] as nat == canon_at(l, n),
+    ensures canon_at(l, n) < 65536, canon(l)[n] as nat == canon_at(l, n), canon(l).len() == l.len(),
 {
+    reveal(canon);
     lemma2_to64();
     if l[n] != 0 {
         lemma_revn_bound((nc(l, l[n] as int) + cnt(l, l[n] as int, n)) as nat, l[n] as nat);
@@ -304,6 +314,7 @@ pub proof fn lemma_tree_len(t: Seq<i32>, l: Seq<u8>)
     requires tree_for(t, l),
     ensures t.len() < 0x4000_0000, t.len() >= 2,
 {
+    reveal(tree_for);
     lemma_nz_total(l); lemma_lstart_total(l, 0); lemma_nz_bound(l, l.len() as int);
     assert(slots(l, 1) == 2);
     lemma_lstart_mono(l, 1); lemma_lstart_total(l, 1);
@@ -325,4 +336,15 @@ pub proof fn lemma_rev_step(rc: u16, c: u16, orig: nat, j: nat)
     lemma_div_denominator(orig as int, pow2(j) as int, 2);
     assert(pow2(j + 1) == pow2(j) * 2);
     assert(revn(orig, j + 1) == 2 * revn(orig, j) + (orig / pow2(j)) % 2);
+}
+
+/// counting over a range of equal lengths
+pub proof fn lemma_cnt_range(l: Seq<u8>, c: u8, a: int, b: int, d: int)
+    requires 0 <= a <= b <= l.len(), forall|i: int| a <= i < b ==> #[trigger] l[i] == c,
+    ensures cnt(l, d, b) == cnt(l, d, a) + (if d == c as int && d >= 1 { b - a } else { 0 }),
+    decreases b - a
+{
+    if a < b {
+        lemma_cnt_range(l, c, a, b - 1, d);
+    }
 }
